@@ -1133,6 +1133,7 @@ for _sk in ('int', 'none', 'generator'):
 # sample.py / sample.sample_tt.one_mode.*  and  sample.sample_tt.*
 #   s/itertools.product(lhs_1, lhs_2)/itertools.product(lhs_2, lhs_1)/        one_mode.middle: inv-keep.loop5.row-t-is-prefix[a] (+) [nn] (+) suffix[b]   (failed)
 #   s/np.concatenate(\[i, \[n\], j\])/np.concatenate([j, [n], i])/              one_mode.middle: inv-keep.loop5.every-row-has-..-position-decoding, ..row-t-is-prefix.. (failed)
+#   s/np.concatenate(\[i, \[n\], j\])/np.concatenate([i, [n+1], j])/            one_mode.middle: inv-keep.loop5.every-row-has-..-position-decoding (failed)
 #   s/lhs_2 = sample_lhs(sh2, r, seed)/lhs_2 = sample_lhs(sh2, r, None)/      one_mode.first / .middle: post.one-Latin-hypercube-table-per-side-..-with-the-seed-object-itself (refuted / failed)
 #   s/idx_many.append(len_2)/idx_many.append(len_1)/                          sample_tt: inv-keep.loop6.idx_many[k]-is-the-number-of-suffix-rows (failed)
 #   s/idx.append(idx\[-1\] + len(pnts))/idx.append(len(pnts))/                sample_tt: inv-keep.loop6.idx-advances-by-the-block-length (failed)
